@@ -65,6 +65,10 @@ PTR_KIDS = ["left", "right", "third", "condition", "init_expr", "update_expr", "
 _KIDX = {f: i for i, f in enumerate(CANON_KIDS)}
 
 
+# members of a MatchArm pseudo node (kind 9998) and the values a default-constructed arm has
+ARM_DEFAULTS = {"pattern_type": "0", "variant_name": "", "bindings": "", "enum_type_name": ""}
+
+
 def enc(s):
     out = ["="]
     for ch in s.encode("utf-8", "surrogateescape"):
@@ -1381,6 +1385,7 @@ def _run_body(rep, seed, tier, quick, lap, cq, proof_broken, new_missing, pinned
     impl_dir = common.build_impl("plain")
     d = batch([leaf], ["DEFAULTS"])[0].split()[1:]
     defaults = {d[i]: dec(d[i + 1]) for i in range(0, len(d), 2)}
+    defaults.update(ARM_DEFAULTS)
     mbin = common.model_bin(PROP)
     violations_with_input = 0
     lap("proofs+builds")
@@ -1655,6 +1660,7 @@ def replay(path):
         try:
             d = batch([leaf], ["DEFAULTS"])[0].split()[1:]
             defaults = {d[i]: dec(d[i + 1]) for i in range(0, len(d), 2)}
+            defaults.update(ARM_DEFAULTS)
             m = batch([common.model_bin(PROP)], [c["request"]])[0]
             i = batch([leaf], [c["request"]])[0]
         finally:
